@@ -157,7 +157,7 @@ func runCaseEx(c *Case) (out *Outcome, classes []string, err error) {
 
 	pol := simrt.Policy{AtomicYield: c.Policy.AtomicYield, Kind: c.Policy.Kind, Sticky: c.Policy.Sticky, DriverW: c.Policy.DriverW, BgW: c.Policy.BgW,
 		PAdvance: c.Policy.PAdvance, PctD: c.Policy.PctD, Horizon: c.Policy.Horizon}
-	cfg := simrt.Config{Seed: c.SchedSeed, Policy: pol, MaxSteps: c.MaxSteps, Replay: c.Decisions, LogPath: os.Getenv("VERIF_EVENTLOG")}
+	cfg := simrt.Config{Seed: c.SchedSeed, Policy: pol, MaxSteps: c.MaxSteps, Replay: c.Decisions, QuietTail: c.QuietTail, LogPath: os.Getenv("VERIF_EVENTLOG")}
 	var res *simrt.Result
 	if RealMode {
 		// differential mode: same program and oracles, real goroutines, no
